@@ -85,7 +85,7 @@ def default_sched():
 
 def make_player(scn, seat, spec, role, overrides=None, vanish=None, team=None, version=18,
                 on_verdict=None, pre_connect=None, post_connect=None, linger_gate=None,
-                addr=None):
+                addr=None, impatient=False):
     addr = addr or ADDR
     team = team if team is not None else scn['teams'][rb.side(seat)]
     kind = spec['kind']
@@ -94,7 +94,7 @@ def make_player(scn, seat, spec, role, overrides=None, vanish=None, team=None, v
                               spec['seed'], addr, version=version, overrides=overrides,
                               name=role, on_verdict=on_verdict, vanish=vanish,
                               pre_connect=pre_connect, post_connect=post_connect,
-                              linger_gate=linger_gate)
+                              linger_gate=linger_gate, impatient=impatient)
     pk = {'bundled': 'script'}.get(kind, kind)
     return BundledPlayer(seat, team, scn['script'], pk, addr, name=role, on_verdict=on_verdict,
                          pre_connect=pre_connect, post_connect=post_connect, version=version)
@@ -141,6 +141,14 @@ def run_session(scn, sched, keep_sim=True, max_decisions=None, extra_setup=None)
     workdir = tempfile.mkdtemp(prefix='bevsim-', dir=os.environ.get('VERIF_SCRATCH') or None)
     run.workdir = workdir
     out_path = pathlib.Path(workdir) / 'log.json'
+    stale = None
+    if sched.get('stale_log'):
+        # the output path already holds the (much longer) log of an earlier session, as the
+        # default `output.json` of a table manager that is started again does
+        stale = STALE_LOG
+        with open(out_path, 'w', encoding='ascii') as f:
+            f.write(stale)
+        sim.count_fault('env.stale_log')
     settings = build_board_settings(mods, scn['boards'])
     run.board_settings = settings
 
@@ -264,6 +272,10 @@ def run_session(scn, sched, keep_sim=True, max_decisions=None, extra_setup=None)
         with open(out_path, 'r', encoding=enc or 'utf-8') as f:
             run.log_text = f.read()
         run.log_exists = True
+        if stale is not None and run.log_text == stale:
+            # the table manager never opened its log: what is there is the older file, untouched
+            run.log_text = None
+            run.log_exists = False
     except FileNotFoundError:
         run.log_text = None
     except UnicodeDecodeError:
@@ -272,6 +284,18 @@ def run_session(scn, sched, keep_sim=True, max_decisions=None, extra_setup=None)
         run.log_exists = True
     run.digest = sim.digest()
     return run
+
+
+def _stale_log():
+    rec = ('{"players": {"N": "old", "E": "older", "S": "old", "W": "older"}, "board_id": "stale-%d", '
+           '"dealer": "N", "deal": {"N": [], "E": [], "S": [], "W": []}, "vulnerability": "None", '
+           '"bid_history": ["Pass", "Pass", "Pass", "Pass"], "contract": "Passed_out", '
+           '"declarer": null, "play_history": null, "taken_trick": null, "score_type": "IMP", '
+           '"scores": {"NS": 0, "EW": 0}}')
+    return '{"logs": [\n' + ',\n'.join(rec % i for i in range(260)) + '\n]}'
+
+
+STALE_LOG = _stale_log()
 
 
 def cleanup(run):
